@@ -174,6 +174,52 @@ pub fn tamper(ctx: &mut Ctx, base: &[u8], creds: &RefCreds, covered_end: usize, 
         m[bit / 8] ^= 1 << (bit % 8);
     }
     ctx.count_n("single-bit-flips", (covered_end * 8) as u64);
+    // structured multi-byte damage to every integrity value: trailing / leading words zeroed or set,
+    // the whole value zeroed, reversed, rotated, halves swapped (what a lenient comparison might let through)
+    for a in rp.attrs.iter().filter(|a| (a.ty == MI || a.ty == MI256) && a.off + 4 + a.len <= covered_end) {
+        let (vs, ve) = (a.off + 4, a.off + 4 + a.len);
+        let orig = base[vs..ve].to_vec();
+        let mut variants: Vec<(String, Vec<u8>)> = vec![];
+        for words in 1..=(a.len / 4) {
+            for (name, fill) in [("zero", 0u8), ("ones", 0xff)] {
+                let mut v = orig.clone();
+                for b in v[a.len - 4 * words..].iter_mut() {
+                    *b = fill;
+                }
+                variants.push((format!("last-{words}-words-{name}"), v));
+                let mut v = orig.clone();
+                for b in v[..4 * words].iter_mut() {
+                    *b = fill;
+                }
+                variants.push((format!("first-{words}-words-{name}"), v));
+            }
+        }
+        for k in 1..a.len.min(8) {
+            let mut v = orig.clone();
+            for b in v[a.len - k..].iter_mut() {
+                *b = 0;
+            }
+            variants.push((format!("last-{k}-bytes-zero"), v));
+        }
+        let mut v = orig.clone();
+        v.reverse();
+        variants.push(("reversed".into(), v));
+        let mut v = orig.clone();
+        v.rotate_left(1);
+        variants.push(("rotated".into(), v));
+        let mut v = orig.clone();
+        v.rotate_left(a.len / 2);
+        variants.push(("halves-swapped".into(), v));
+        for (name, v) in variants {
+            if v == orig {
+                continue;
+            }
+            m[vs..ve].copy_from_slice(&v);
+            check_must_fail(ctx, &m, creds, "tamper-detected", &format!("hmac-value:{}", name.split('-').filter(|p| p.parse::<u32>().is_err()).collect::<Vec<_>>().join("-")));
+            ctx.count("structured-hmac-damage");
+        }
+        m[vs..ve].copy_from_slice(&orig);
+    }
     // all 255 values at sampled positions + the structural bytes; every position with sampled values
     let mut hot: Vec<usize> = (0..4).collect();
     for a in &rp.attrs {
